@@ -186,6 +186,7 @@ def params : Params := {
     ((.list, .list), ⟨.iter, .iter, .dispatch, .dispatch⟩)]
   mapDefault := ⟨.iter, .iter, .any, .any⟩
   mapBinaryGuard := true
+  binarySeesThroughPtr := true
 }
 
 /-- the reference tables satisfy every side condition of the generic theorems -/
